@@ -94,7 +94,7 @@ def run_property(pid, tier, seed, relock=False, verbose=False):
                 flt = (P.get('case_filter') or {}).get(q)
                 if flt and any(case.get(k2) != v2 for k2, v2 in flt.items()):
                     continue
-                tasks.append((q, ci, {'timeout': timeout, 'retry': retry, 'seed': seed % 1000, 'procs': 8, 'case': case, 'kinds': P.get('kinds'), 'want_hash': relock, 'hints': None if relock else hints}))
+                tasks.append((q, ci, {'timeout': timeout, 'retry': retry, 'seed': 0, 'procs': 8, 'case': case, 'kinds': P.get('kinds'), 'want_hash': relock, 'hints': None if relock else hints}))
     for out in isolate.run(tasks, build, jobs=5):
         q = out['q']
         if out.get('error'):
@@ -367,7 +367,7 @@ def relock_all(seed=0, only=None):
                         continue
                     key = (q, ci, json.dumps(case, sort_keys=True, default=str))
                     users.setdefault(key, []).append(pid)
-                    tasks[key] = (q, ci, {'timeout': 20, 'retry': 90, 'seed': seed % 1000, 'procs': 8, 'case': case, 'kinds': None, 'want_hash': True})
+                    tasks[key] = (q, ci, {'timeout': 20, 'retry': 90, 'seed': 0, 'procs': 8, 'case': case, 'kinds': None, 'want_hash': True})
     keys = sorted(tasks, key=lambda k: (0 if 'LGANM.sample' in k[0] or 'ANM.sample' in k[0] else 1, k))      # long ones first
     lock = load_json(LOCK, {})
     if only:
